@@ -89,6 +89,7 @@ func (e *Engine) generate() {
 	s := &State{Decl: map[string]bool{}, Locals: map[*ssa.Alloc]*cell{}, Heap: map[string]string{}, Held: map[string]string{},
 		Iters: map[ssa.Value]*iterState{}, FreshRefs: map[string]bool{}, LoopEntry: map[*ssa.BasicBlock]map[string]string{}, Ghost: map[string]string{}}
 	e.strLit("")
+	e.heapGet(s, "Alloc", "(Array Int Bool)") // the allocation set at entry is H0!Alloc
 	var args []*Val
 	for i, p := range fn.Params {
 		v := e.havocVal(s, p.Type(), "p_"+p.Name())
@@ -129,6 +130,10 @@ func (e *Engine) generate() {
 	s.Entry[0].Heap = map[string]string{}
 	for k, v := range s.Heap {
 		s.Entry[0].Heap[k] = v
+	}
+	if e.Contract != nil && e.Contract.Flag("noescape") {
+		ok, why := checkNoEscape(e)
+		e.structural(e.FnKey+"/noescape", "noescape", fn.Pos(), "pointer parameters are not retained", ok, why)
 	}
 	// termination of recursion: a function on a call-graph cycle needs a measure
 	if e.P.Recursive(fn) {
@@ -305,7 +310,11 @@ func (e *Engine) cover(workdir string, timeout time.Duration) bool {
 		go func(pe *PathEnd) {
 			defer wg.Done()
 			q := &Query{Lines: pe.S.Lines, Goal: "true"}
-			sr := Solve(workdir, fmt.Sprintf("%s.cover%d", e.FnKey, pe.S.PathID), e.assemble(q, false), timeout, "")
+			ct := timeout
+			if ct > 3*time.Second {
+				ct = 3 * time.Second
+			}
+			sr := Solve(workdir, fmt.Sprintf("%s.cover%d", e.FnKey, pe.S.PathID), e.assemble(q, false), ct, "")
 			if sr.Result == "sat" || sr.Result == "unknown" || sr.Result == "timeout" {
 				mu.Lock()
 				ok = true
